@@ -5,7 +5,7 @@ import pyvc.verify as V
 fq_s, sel = sys.argv[1], sys.argv[2]
 specs = load_specs(); w = make_world(specs)
 fq = [k for k in specs.contracts if k.endswith(fq_s)][0]
-def fake(obs, ax, timeout_ms, seed, jobs):
+def fake(obs, ax, timeout_ms, seed, jobs, single_attempt=()):
     for ob in obs:
         if sel in ob.oid:
             print("==", ob.oid)
